@@ -9,6 +9,7 @@ import (
 	"encoding/hex"
 	"errors"
 	"fmt"
+	"runtime"
 	"sort"
 	"strings"
 	"time"
@@ -28,7 +29,7 @@ import (
 
 var dynErrTags = []struct{ prefix, tag string }{
 	{"unit '", "unit-not-supported"},
-	{"invalid public key", "bad-pubkey"},
+	{"invalid public key '", "bad-pubkey"},
 	{"could not get mint balance", "db"},
 	{"could not generate invoice", "ln"},
 	{"error getting invoice status", "ln"},
@@ -327,8 +328,14 @@ func (s *Seq) runOp(name string, line Sx, script []string, f func() Sx) opResult
 		s.c.MonitorFail("C06", "C06/panic/"+name+"/"+panicSig(res.panicv), fmt.Sprintf("%s panicked: %v", name, res.panicv), s.replay())
 	}
 	if s.model {
-		lnx := make([]Sx, len(res.ln))
-		for i, c := range res.ln {
+		lnc := res.ln
+		if name == "checkstate" {
+			// the Go iterates pending quotes in map order: compare the calls as a set ordered by hash
+			lnc = append([]LnCall(nil), res.ln...)
+			sort.SliceStable(lnc, func(i, j int) bool { return lnc[i].Hash < lnc[j].Hash })
+		}
+		lnx := make([]Sx, len(lnc))
+		for i, c := range lnc {
 			lnx[i] = L(A(c.Kind), I(c.Hash), N(c.Msat), N(c.MaxFee), A(c.Answer))
 		}
 		tr := make([]Sx, len(res.trace))
@@ -520,6 +527,18 @@ func (s *Seq) OpMintQuote(amount uint64, unit string, pkMode int, lnFail bool) *
 		if li != nil {
 			hs = li.id
 		}
+		// the watcher goroutine started by RequestMintQuote reads the quote back and subscribes: wait for it so
+		// that its storage call lands in this operation's trace
+		deadline := time.Now().Add(3 * time.Second)
+		for {
+			s.env.LN.mu.Lock()
+			n := len(s.env.LN.subs[q.PaymentHash])
+			s.env.LN.mu.Unlock()
+			if n > 0 || time.Now().After(deadline) {
+				break
+			}
+			time.Sleep(200 * time.Microsecond)
+		}
 		hq = &HMintQ{Id: q.Id, Sym: s.env.symMintQ(q.Id), Amount: q.Amount, Hash: q.PaymentHash, HashSym: hs, Key: key}
 		if key != nil {
 			hq.KeySym = s.keySym[req.Pubkey]
@@ -582,28 +601,28 @@ func (s *Seq) Settle(q *HMintQ) {
 }
 
 // Notify delivers the backend's asynchronous "invoice settled" notification for the quote and waits
-// until the watcher goroutine has finished reacting to it.
+// until the watcher goroutine has finished reacting to it (its two goroutines have exited).
 func (s *Seq) Notify(q *HMintQ) {
 	line := L(A("mint.notify"), I(q.Sym))
-	// wait until the watcher has subscribed
-	deadline := time.Now().Add(2 * time.Second)
-	for {
-		s.env.LN.mu.Lock()
-		n := len(s.env.LN.subs[q.Hash])
-		s.env.LN.mu.Unlock()
-		if n > 0 || time.Now().After(deadline) {
-			break
-		}
-		time.Sleep(time.Millisecond)
-	}
-	s.env.DrainUpdates()
 	s.runOp("notify", line, nil, func() Sx {
+		before := runtime.NumGoroutine()
 		n := s.env.LN.Notify(q.Hash)
 		if n == 0 {
 			return L(A("ok"), A("no-subscriber"))
 		}
-		// the watcher either writes the quote state or decides not to; give it time to do so
-		if _, ok := s.env.WaitWatcher(300 * time.Millisecond); ok {
+		deadline := time.Now().Add(3 * time.Second)
+		for runtime.NumGoroutine() > before-2 && time.Now().Before(deadline) {
+			time.Sleep(200 * time.Microsecond)
+		}
+		s.env.DB.mu.Lock()
+		wrote := false
+		for _, t := range s.env.DB.Trace {
+			if t == "db.UpdateMintQuoteState" {
+				wrote = true
+			}
+		}
+		s.env.DB.mu.Unlock()
+		if wrote {
 			return L(A("ok"), A("wrote"))
 		}
 		return L(A("ok"), A("no-write"))
@@ -1048,6 +1067,9 @@ func (s *Seq) OpMelt(q *HMeltQ, ps []ReqProof, script []string) string {
 			q.Inputs = nil
 			if internal != nil {
 				internal.Payments++
+				if q.Inv.huge {
+					s.hugeIn = true
+				}
 			}
 		case "PENDING":
 			// locked
